@@ -1,6 +1,6 @@
 SPECIFICATION GSpec
 CONSTANTS
-  Guids = {"g1", "g2", "g3", "g4", "g5", "g6"}
+  Guids = {"g1", "g2", "g3", "g4", "g5", "g6", "g7", "g8"}
   RuleIds = {"", "r0", "r1", "r2", "r3"}
   Contents = {"c1", "c2", "c3"}
   Versions = {"1.0", "2.0"}
@@ -9,6 +9,10 @@ CONSTANTS
   IdsIdentifyContent = FALSE
   IncOf <- ZeroInc
   StatusInc = 0
+  HostSpellsOddly = FALSE
+  FetchCanonicalises = FALSE
+  PrunesOnStart = FALSE
+  MaxKept = 1
   LocalNeedsIncarnationMatch = FALSE
   KeepHigherIncarnation = FALSE
   ReuseUnattested = FALSE
